@@ -129,7 +129,7 @@ def run_shard(params, rec):
                 base = jitlib.run(spec, backend, same, options=ref_opts, max_steps=300)
                 writer = "guest store (%s)" % where
                 wit["prog"] = sm.describe()
-            elif rng.random() < 0.35:
+            elif rng.random() < 0.5:
                 # ---- several writes on a looping program: the loop head starts a second translated block
                 # that overlaps the block translated from the program start
                 prog = jitlib.make_prog(spec, rng, pool, rng.randrange(5, 10), with_loop=True, fault_bias=0.0)
@@ -163,21 +163,29 @@ def run_shard(params, rec):
                     jitter.vm.set_mem(o_, nb)
                     image[o_ - L.CODE:o_ - L.CODE + l_] = nb
                     steps.append("write %x: %s -> %s" % (o_, t_, ntxt))
-                    if w < len(order) - 1 and rng.random() < 0.5:
-                        jitter.cpu.set_gpreg(all_regs)
-                        jitter.vm.set_exception(jitter.vm.get_exception() & 1)
-                        jitter.cpu.set_exception(0)
-                        e_ = rng.choice(entries)
-                        mid = rerun(jitlib, spec, prog, jitter, start=e_)
-                        steps.append("run from %x" % e_)
-                        if mid.budget:
-                            break
+                    if w < len(order) - 1:
+                        k_ = rng.random()
+                        if k_ < 0.65:
+                            # intermediate run: mostly entering at the loop head, so that the block
+                            # translated from the program start is invalidated but not translated again
+                            jitter.cpu.set_gpreg(all_regs)
+                            jitter.vm.set_exception(jitter.vm.get_exception() & 1)
+                            jitter.cpu.set_exception(0)
+                            e_ = entries[-1] if rng.random() < 0.75 else entries[0]
+                            mid = rerun(jitlib, spec, prog, jitter, start=e_)
+                            steps.append("run from %x" % e_)
+                            if mid.budget:
+                                break
+                        elif k_ < 0.85:
+                            # a breakpoint de-jits the blocks around its address at once
+                            jitter.add_breakpoint(o_, lambda j: True)
+                            steps.append("add_breakpoint %x" % o_)
                 if len([x for x in steps if x.startswith("write")]) < 2:
                     rec.count("discarded_no_same_length_instruction")
                     continue
                 snap = jitlib.Outcome()
                 jitlib.snapshot(jitter, spec, snap)
-                entry = rng.choice(entries)
+                entry = entries[-1] if rng.random() < 0.7 else entries[0]
                 steps.append("final run from %x" % entry)
                 jitter.cpu.set_gpreg(all_regs)
                 jitter.vm.set_exception(jitter.vm.get_exception() & 1)
